@@ -670,7 +670,7 @@ def main(ctx):
     # ---------------------------------------------------------------- search + corr2 + corr3
     nsh = max(2, min(14, (os.cpu_count() or 4) - 2))
     total = 20000 if quick else 4000000
-    secs = 4.0 if quick else 150.0        # CPU seconds per shard (the harness measures its own CPU time: load tolerant)
+    secs = 4.0 if quick else 110.0        # CPU seconds per shard (the harness measures its own CPU time: load tolerant)
     sdir = os.path.join(BUILD, "c01_search")
     os.makedirs(sdir, exist_ok=True)
     for fn in os.listdir(sdir):
